@@ -2951,8 +2951,9 @@ impl Machine {
             _ => {
                 match Number::try_from((a2, &self.machine_st.arena.f64_tbl)) {
                     Ok(Number::Integer(n)) => {
-                        let n: u32 = (&*n).try_into().unwrap();
-                        let n = std::char::from_u32(n);
+                        // a code that does not even fit 32 bits is not a character code either
+                        let n: Option<u32> = (&*n).try_into().ok();
+                        let n = n.and_then(std::char::from_u32);
                         let c = match n {
                             Some(c) => c,
                             _ => {
